@@ -6,7 +6,8 @@ every message type of tests/FIX44.xml, tests/TT-FIX44.xml, tests/schema_fix_simp
 and of one synthetic in-memory dictionary.  From the expansion this module generates
 
   * valid instances (minimal, maximal, minimal + each optional member at every
-    nesting depth, two-item groups, every enumerator, canonical typed values,
+    nesting depth, two-item groups, every enumerator, canonical typed values (temporal types:
+    cross product year 0000 / ordinary / 9999 x special day x leap second x fraction, temporal_family()),
     reversed top-level order, with header / trailer fields, ...)       -> validate() is True
   * from the minimal and the maximal instance (and from every item of an instance
     with two items in every group) EVERY single-fault mutation at every applicable
@@ -96,6 +97,81 @@ BAD = {
     "MONTHYEAR": ["abc", "202413"],
     # DATA: every byte string is a member - no fault exists
 }
+
+TEMPORAL = ("UTCTIMESTAMP", "UTCTIMEONLY", "UTCDATEONLY", "LOCALMKTDATE", "MONTHYEAR")
+
+
+def temporal_family(thorough):
+    """R9, temporal datatypes: the cross product of the special cases the FIX 4.4 datatype table states
+    (YYYY = 0000-9999, MM = 01-12, DD = 01-31, HH = 00-23, MM = 00-59, SS = 00-60 (60 = UTC leap second),
+    optional .sss milliseconds; MonthYear = YYYYMM | YYYYMMDD | YYYYMMWW, WW = w1..w5) for each temporal
+    type: year (first / ordinary / last [thorough: + 0001, 2000, 1900]) x day (first of January, last of
+    December, last of June, leap day in leap years) x time (midnight, ordinary, last second, leap second on the
+    two days UTC inserts it) x fraction (none, .sss).  -> ({type: members}, {type: non-members}); a non-member
+    has exactly one component outside its range, every other component is one of the special cases above."""
+    years = ["0000", "2024", "9999"] + (["0001", "2000", "1900"] if thorough else [])
+    leap = ("0000", "2024", "2000")   # proleptic Gregorian calendar (ISO 8601): year 0000 is a leap year
+    fracs = ["", ".123"]
+    good = {t: [] for t in TEMPORAL}
+    bad = {t: [] for t in TEMPORAL}
+
+    def days(y):
+        return ["0101", "1231", "0630"] + (["0229"] if y in leap else [])
+
+    def times(d):
+        return ["00:00:00", "03:04:05", "23:59:59"] + (["23:59:60"] if d in ("1231", "0630") else [])
+
+    for y in years:
+        for d in days(y):
+            good["UTCDATEONLY"].append(y + d)
+            good["LOCALMKTDATE"].append(y + d)
+            for tm in times(d):
+                for f in fracs:
+                    good["UTCTIMESTAMP"].append("%s%s-%s%s" % (y, d, tm, f))
+        for mm in ("01", "12"):
+            good["MONTHYEAR"] += [y + mm, y + mm + "01", y + mm + "31", y + mm + "w1", y + mm + "w5"]
+        good["MONTHYEAR"].append(y + "0229" if y in leap else y + "0228")
+    for tm in ("00:00:00", "03:04:05", "23:59:59", "23:59:60"):
+        for f in fracs:
+            good["UTCTIMEONLY"].append(tm + f)
+    # one component out of range, the others special
+    bad_times = ["23:59:61", "24:00:00", "23:60:60", "24:59:60", "23:59:6", "23:59:60.", "23:59:60.x23"]
+    bad["UTCTIMEONLY"] += bad_times
+    for y in (years if thorough else ["0000", "2024"]):
+        nonleap_day = [] if y in leap else ["0229"]
+        bad_days = ["1301", "0001", "0100", "0132", "0230", "0631"] + nonleap_day
+        for d in bad_days:
+            bad["UTCDATEONLY"].append(y + d)
+            bad["LOCALMKTDATE"].append(y + d)
+        for d in bad_days[:4] if not thorough else bad_days:
+            for tm in ("03:04:05", "23:59:60"):
+                for f in fracs:
+                    bad["UTCTIMESTAMP"].append("%s%s-%s%s" % (y, d, tm, f))
+        for tm in bad_times:
+            bad["UTCTIMESTAMP"].append("%s1231-%s" % (y, tm))
+        bad["UTCTIMESTAMP"] += [y + "1231 23:59:60", y + "1231-23:59:60-", y + "123-23:59:60"]
+        bad["MONTHYEAR"] += [y + "13", y + "00", y + "0132", y + "0100", y + "0230", y + "01w0", y + "01w6",
+                             y + "13w1", y + "0"]
+    bad["UTCDATEONLY"] += ["000101", "0000-01-01"]
+    bad["LOCALMKTDATE"] += ["000101", "0000-01-01"]
+    return good, bad
+
+
+FAMILY_ONLY = set()   # members added by the temporal family (not in the hand-written CANON table)
+BAD_EXT = {}   # type -> further non-members (temporal family); used where bad_values() gets all_values == "ext"
+
+
+def install_temporal(thorough):
+    """Append the members of the temporal family to the canonical table (idempotent; the first entries, which
+    canon_value() uses, stay what they were) and put its non-members into BAD_EXT."""
+    good, bad = temporal_family(thorough)
+    for t in TEMPORAL:
+        for v in good[t]:
+            if v not in CANON[t]:
+                CANON[t].append(v)
+                FAMILY_ONLY.add((t, v))
+        BAD_EXT[t] = [v for v in bad[t] if v not in BAD[t]]
+
 
 MULTI = ("MULTIPLEVALUESTRING", "MULTIPLESTRINGVALUE")
 # tag -> extra valid value stated by the FIX specification for that field
@@ -602,6 +678,8 @@ def bad_values(m, all_values):
         return
     t = m["typ"].upper()
     vals = BAD.get(t, [])
+    if all_values == "ext":
+        vals = vals + BAD_EXT.get(t, [])
     for v in (vals if all_values else vals[:2]):
         if SPECIAL_VALID.get(m["tag"]) == v:
             continue
@@ -872,6 +950,11 @@ def _work(item):
     # all values of the fault tables everywhere in the thorough tier, in the small dictionaries and on
     # the small bases; the first value only at the positions of the maximal instance in the quick tier
     thorough_values = thorough or did in ("SIMPLE", "SYN") or part != "faults_max"
+    # the non-members of the temporal family (BAD_EXT): everywhere in the two small dictionaries (the synthetic
+    # one has every temporal type at top level, at nesting depth 1 and 2, and in the header); thorough tier:
+    # also at every position of the minimal instance and the header of the real dictionaries
+    if thorough_values and (did in ("SIMPLE", "SYN") or (thorough and part in ("faults_min", "header"))):
+        thorough_values = "ext"
     dc = get_dc(did, REPO)
     name, mt, members = dc.msgs[mi]
     seen = {}
@@ -1137,7 +1220,7 @@ def history_corpus(dc):
         mn = build(members, False, "min")
         base_leaves = leaves(mn)
         out.append(("valid", "minimal", mt, mn, frozenset(v for _t, v in base_leaves)))
-        for cls, lv, tree, note in faults(dc, mi, mn, True):
+        for cls, lv, tree, note in faults(dc, mi, mn, "ext" if dc.did in ("SIMPLE", "SYN") else True):
             out.append(("fault", cls, mt, tree, frozenset(v for _t, v in leaves(tree) - base_leaves)))
         hb = header_nodes(dc, mt, False)
         if hb is not None:
@@ -1155,7 +1238,9 @@ def history_corpus(dc):
         if m["en"]:
             vals = [("enumerator", e) for e in m["en"][:3]]
         else:
-            vals = [("typed_value:" + m["typ"].upper(), v) for v in CANON.get(m["typ"].upper(), [])]
+            # (the temporal family: history runs of the two small dictionaries only)
+            vals = [("typed_value:" + m["typ"].upper(), v) for v in CANON.get(m["typ"].upper(), [])
+                    if dc.did in ("SIMPLE", "SYN") or (m["typ"].upper(), v) not in FAMILY_ONLY]
         if m["tag"] in SPECIAL_VALID and not m["en"]:
             vals.insert(0, ("special_value_tag" + m["tag"], SPECIAL_VALID[m["tag"]]))
         for cls, v in vals:
@@ -1327,6 +1412,7 @@ def run(ctx):
     SEED = ctx.seed
     REPO = ctx.repo
     thorough = not ctx.quick
+    install_temporal(thorough)
     for did in DICT_IDS:
         dc = get_dc(did, REPO)
         if dc.load_error:
@@ -1350,7 +1436,16 @@ def run(ctx):
         "corpus are recomputed under permutations of <components> (all 720 / 6 for the synthetic / toy dictionary, "
         "reversal + dependencies-first + dependencies-last + rotations + adjacent transpositions for FIX44.xml). "
         "Value faults of numeric datatypes include literals with a legal start and an illegal tail (blank, line "
-        "feed, digit grouping, exponent, second decimal point, letters). Framing: valid instances and all faults of "
+        "feed, digit grouping, exponent, second decimal point, letters). Temporal datatypes (UTCTimestamp, "
+        "UTCTimeOnly, UTCDateOnly, LocalMktDate, MonthYear): the valid values are the cross product of the special "
+        "cases the datatype table states - year (0000, 2024, 9999 [thorough: + 0001, 2000, 1900]) x day (0101, 1231, "
+        "0630, 0229 in leap years) x time (00:00:00, 03:04:05, 23:59:59, leap second 23:59:60 on 1231 / 0630) x "
+        "fraction (none, .sss); MonthYear: year x (YYYYMM, YYYYMMDD first / last day, YYYYMMw1, w5, end of "
+        "February) - placed like every canonical value; the value faults are that family with exactly ONE component "
+        "out of range (month 13 / 00, day 00 / 32 / 0230 / 0631, second 61, hour 24, minute 60, truncated / "
+        "dangling fraction, wrong separator, week w0 / w6) at every temporal position of the toy and the synthetic "
+        "dictionary (top level, nesting depth 1 and 2, header) [thorough: also at every position of the minimal "
+        "instance and the header of the real dictionaries]. Framing: valid instances and all faults of "
         "the minimal instance (plus the in-group faults of the all-groups instance) are repeated with CheckSum(10) "
         "in front, with the trailer tags after the first member and with header + trailer in front of the body. "
         "Foreign tags are also drawn from the members of header / trailer groups (HopCompID ...) and from tags the "
@@ -1477,7 +1572,9 @@ def run(ctx):
         "is not positive); mismatching LENGTH/DATA pairs and "
         "conditionally required fields are unconstrained",
         "values: only unquestionable members / non-members of each FIX 4.4 datatype are used (lexical corner cases "
-        "belong to C19); enumerated fields: any declared enumerator is valid, a value equal to no enumerator is a "
+        "belong to C19); temporal values are members when every component is inside the range the FIX 4.4 datatype "
+        "table states (YYYY 0000-9999, SS 00-60, optional .sss; 0000 is a leap year of the proleptic Gregorian "
+        "calendar) - whether a leap second really occurred on that day is not asked; enumerated fields: any declared enumerator is valid, a value equal to no enumerator is a "
         "fault; MultipleValueString with enumerators: two declared enumerators separated by one space are valid",
     ]
 
@@ -1486,6 +1583,7 @@ def replay(ctx, rep):
     global SEED, REPO
     SEED = ctx.seed
     REPO = ctx.repo
+    install_temporal(not getattr(ctx, "quick", True))
     from asyncfix.protocol.schema import FIXSchema
 
     dc = get_dc(rep["dict"], REPO)
